@@ -428,6 +428,8 @@ def run(ck: Checker) -> None:
     ck.guard("R-NORMALISE", lambda: r_normalise(ck))
     ck.guard("R-UNION-FIRST", lambda: r_union_first(ck))
     ck.guard("R-BOOLGUARD-TT", lambda: r_member_by_eq(ck))
+    from . import state_rules as S_
+    ck.guard("R-GATE", lambda: S_.r_unstable_key(ck, "R-GATE", [(NODE, "_check_runtime_types"), (TYPING, "is_instance")], "each construction is checked on its own values"))
     from . import state_rules as S
     ck.guard("R-GATE", lambda: S.r_config_readonly(ck, "R-GATE", ("RUNTIME_TYPE_CHECK",)))
     from . import templates_rules as T13
